@@ -62,6 +62,7 @@ func main() {
 	verbose := flag.Bool("v", false, "verbose")
 	noReplay := flag.Bool("noreplay", false, "do not try to replay counterexamples")
 	replayFile := flag.String("replayfile", "", "re-run the replay stored in this violation file")
+	noRetry := flag.Bool("noretry", false, "no second chance for undecided obligations (self-test and mutation runs, where an alarm is the expected outcome)")
 	flag.Parse()
 	if *replayFile != "" {
 		os.Exit(rerunReplay(*replayFile))
@@ -147,9 +148,44 @@ func main() {
 	}
 
 	// select obligations of the property
+	// A property's check consists of the obligations tagged with it and of every obligation of every
+	// function under contract (or lemma) whose contract the proofs of those functions apply, transitively:
+	// a callee's postcondition that is assumed at a call must be discharged in the same run.
 	var sel []*Obligation
+	depFns := map[string]bool{}
+	if *prop != "" {
+		base := map[string]bool{}
+		for _, o := range ex.obls {
+			if hasTag(o.Tags, *prop) {
+				base[o.Fn] = true
+			}
+		}
+		work := []string{}
+		for f := range base {
+			work = append(work, f)
+		}
+		seen := map[string]bool{}
+		for len(work) > 0 {
+			f := work[len(work)-1]
+			work = work[:len(work)-1]
+			if seen[f] {
+				continue
+			}
+			seen[f] = true
+			for g := range ex.callsOf[f] {
+				if !seen[g] {
+					work = append(work, g)
+				}
+			}
+		}
+		for f := range seen {
+			if !base[f] {
+				depFns[f] = true
+			}
+		}
+	}
 	for _, o := range ex.obls {
-		if *prop == "" || hasTag(o.Tags, *prop) {
+		if *prop == "" || hasTag(o.Tags, *prop) || depFns[o.Fn] {
 			sel = append(sel, o)
 		}
 	}
@@ -187,9 +223,7 @@ func main() {
 	knownEarly := loadKnown(filepath.Join(*verifDir, "known_findings.json"))
 	isKnownObl := map[string]bool{}
 	for _, k := range knownEarly.Findings {
-		if k.Property == *prop {
-			isKnownObl[k.Obligation] = true
-		}
+		isKnownObl[k.Obligation] = true
 	}
 	for _, o := range sel {
 		if isKnownObl[o.Name] {
@@ -199,7 +233,7 @@ func main() {
 			retry = append(retry, o)
 		}
 	}
-	if len(retry) > 0 && len(retry) <= 40 {
+	if len(retry) > 0 && len(retry) <= 40 && !*noRetry {
 		ex.solveAll(retry, tmp, timeoutS*3, thorough, *workers)
 	}
 	solveWall := time.Since(ts).Seconds()
@@ -220,6 +254,7 @@ func main() {
 	var failedNames []string
 	coverByFn := map[string][2]int{} // fn -> [sat-or-inconclusive, unsat]
 	knownSeen := map[string]bool{}
+	otherKnown := map[string]bool{}
 	samples := []any{}
 	fnSet := map[string]bool{}
 	for _, o := range sel {
@@ -241,6 +276,12 @@ func main() {
 				c[0]++
 			}
 			coverByFn[o.Fn+"|"+o.Name] = c
+			continue
+		}
+		if isKnownObl[o.Name] && knownByObl[o.Name].Obligation == "" {
+			// a listed finding of another property, met in a function this property depends on: it is
+			// reported by that property's check, not here
+			otherKnown[o.Name] = true
 			continue
 		}
 		if _, isKnown := knownByObl[o.Name]; isKnown {
@@ -289,7 +330,7 @@ func main() {
 
 	// tool errors relevant to this property
 	for _, e := range ex.errs {
-		if *prop != "" && !hasTag(fnTags[e.Fn], *prop) && len(fnTags[e.Fn]) > 0 {
+		if *prop != "" && !hasTag(fnTags[e.Fn], *prop) && len(fnTags[e.Fn]) > 0 && !depFns[e.Fn] {
 			continue
 		}
 		fmt.Printf("TOOL-ERROR %s: %s\n", shortFn(e.Fn), e.Msg)
@@ -374,6 +415,9 @@ func main() {
 		}
 	}
 
+	for n := range otherKnown {
+		fmt.Printf("NOTE obligation %s of a function this property depends on is a listed finding of another property\n", n)
+	}
 	if nObl == 0 && violations == 0 {
 		emit(Failure{Obligation: "tool:no-obligations", Class: "tool", Clause: "no obligation was generated for this property (vacuous check)", Status: "tool-error", Property: *prop, ToolError: true})
 	}
